@@ -201,6 +201,59 @@ def run(report, index, tier):
                          skip, i),
                      'returns %r, expected %r' % (got, exp),
                      where='walkers.py:Walker.extract')
+    # one tree per node class the parser builds: an instance whose child
+    # attributes hold leaves, below a root; every walker must reach the
+    # instance and all its leaves whatever the class is
+    nclass = 0
+    for cls in sorted(am.classes):
+        if not am.is_node(cls) or cls in ('Node',):
+            continue
+        try:
+            owner, shape = am.children_shape(cls)
+        except AnalysisError:
+            continue
+        if not shape or any(a == '_children_list' for _, a in shape):
+            continue
+        _, chfn = am.find_method(cls, 'children')
+        inst = Obj(cls, name=cls)
+        leaves = []
+        for i, (mult, attr) in enumerate(shape):
+            if mult == 'one':
+                lf = mk('%s.%s' % (cls, attr))
+                setattr(inst, attr, lf)
+                leaves.append(lf)
+            else:
+                lfs = [mk('%s.%s[%d]' % (cls, attr, j)) for j in (0, 1)]
+                setattr(inst, attr, lfs)
+                leaves.extend(lfs)
+
+        def kids(inst=inst, chfn=chfn):
+            ev = Evaluator(am.module, inst.__dict__['_cls'], {}, {})
+            ret, _ = ev.call(chfn, [], self_obj=inst)
+            return list(ret)
+        inst.children = ('pyfunc', kids)
+        root = mk('root', inst)
+        want = [cls] + [lf.name for lf in leaves]
+        nclass += 1
+        for meth in ('walk', 'filter'):
+            ev = Evaluator(wm, 'Walker', wmethods, {},
+                           is_subclass=lambda c, b: c == b or (
+                               c in am.classes and am.is_subclass(c, b)) or
+                           (c == 'Node' and b == 'Node'))
+            ev.iter_hook = iter_hook
+            cond = ('pyfunc', lambda n: True)
+            try:
+                _, ys = ev.call(wmethods[meth], [root, cond],
+                                self_obj=Obj('Walker'))
+                got = [y.name for y in ys]
+            except Raised as e:
+                got = 'raised %s' % e.text
+            r2.check(got == want, '%s below %s' % (meth, cls),
+                     'Walker.%s on a %s node with leaf children' % (
+                         meth, cls),
+                     'yields %s, expected the node and its children %s' % (
+                         got, want), where='walkers.py:Walker.%s' % meth)
+    report.count('node classes walked', nclass)
     report.informational.append(
         'the `comments` attribute is attached by setpos and deliberately '
         'not part of children(): observation, outside R16.1')
